@@ -867,3 +867,44 @@ def rule_idle_lookup(ctx, R):
                   "the idle lookup does not compare last_updated_epoch with the current epoch of the track's own "
                   'scene (%s)' % detail[:200])
     return n
+
+
+def rule_batch_request(ctx, R):
+    """PredictionBatchRequest::add files a detection under ITS scene: the list that receives the element is the entry of
+    the scene parameter in a keyed container (map get_mut / entry / a search over all entries comparing the scene id),
+    and a new entry is created under that same key.  An entry chosen by position (`last_mut()`, an index) gives one
+    scene several entries when scenes are added interleaved - the scene's epoch then advances once per entry and its
+    detections are voted on by independent jobs."""
+    from lib import deep_calls
+    b = ctx.anchor(R, 'trackers::batch::PredictionBatchRequest::add')
+    if b is None:
+        return 0
+    n = 0
+    pushes = deep_calls(ctx.F, b, 'push', 'push_back', 'extend', 'or_insert_with', 'or_insert', 'or_default', 'insert')
+    POS = ('last_mut', 'last', 'first', 'first_mut', 'pop', 'iter_mut', 'iter')
+    keyed = positional = 0
+    for owner, c in pushes:
+        eb = ExprBuilder(owner)
+        recv = eb.arg(c, 0)
+        if not recv.has_place(root=('param', 1)):
+            continue
+        if c.name == 'insert':
+            k = eb.arg(c, 1).strip() if len(c.args) > 2 else None
+            if k is not None and 'Map' in c.callee:
+                n += 1
+                ctx.check(k.kind == 'place' and k.root == ('param', 2), R, b, 'batch.add:new-entry-keyed-by-scene', repr(k),
+                          'a new per-scene entry is inserted under %r, not under the scene id parameter' % k, c.ln)
+                keyed += 1
+            continue
+        calls = [y for y in recv.walk() if y.kind == 'call']
+        bykey = [y for y in calls if y.name.rsplit('::', 1)[-1] in ('get_mut', 'entry', 'get', 'find', 'find_map', 'position')
+                 and any(a.has_place(root=('param', 2)) or (a.kind == 'agg' and a.name.startswith('closure')) for a in y.args[1:])]
+        bypos = [y.name.rsplit('::', 1)[-1] for y in calls if y.name.rsplit('::', 1)[-1] in POS and not bykey]
+        n += 1
+        ctx.read(b)
+        ctx.check(bool(bykey) and not bypos, R, b, 'batch.add:entry-selected-by-scene-id', repr(recv)[:100],
+                  'PredictionBatchRequest::add appends the element to %r: the entry is not looked up by the scene id over the '
+                  'whole batch (%s) - a scene added in two separate runs gets two entries, two epochs and two voting jobs'
+                  % (recv, ', '.join(bypos) or 'no keyed lookup'), c.ln)
+        keyed += bool(bykey)
+    return n
